@@ -293,6 +293,10 @@ def oracle(ctx):
             "mv+rmv": lambda: MVR(Amat, herm),
             "scaled-sum": lambda: (MV(Amat * 0.25, herm) * 2 + xt.LinearOperator.m(Amat * 0.5, is_hermitian=herm)),
             "adjoint-of-adjoint": lambda: MVR(Amat.transpose(-2, -1).conj().contiguous(), herm).H,
+            # differences and their adjoints (the adjoint of a - b is a^H - b^H; seeded defect C01/4)
+            "difference": lambda: (MVR(Amat * 1.5, herm) - xt.LinearOperator.m(Amat * 0.5, is_hermitian=herm)),
+            "adjoint-of-difference": lambda: (MVR(Amat.transpose(-2, -1).conj().contiguous() * 1.5, False)
+                                              - xt.LinearOperator.m(Amat.transpose(-2, -1).conj().contiguous() * 0.5, is_hermitian=False)).H,
         }
         kind = rng.choice(list(kinds))
         # dense reference, column by column and batch by batch
@@ -353,6 +357,24 @@ def oracle(ctx):
                     and not (meth == "cg" and spectrum == "indefinite" and False):
                 # on these well-conditioned systems (cond <= ~10) the method must converge silently
                 ctx.fail("oracle", "solve:%s:%s:warns-on-wellconditioned" % (meth, mode), info, {"error": err}, "silent convergence")
+    # right-hand sides that are small but not negligible: with the default options (rtol 1e-6, atol 1e-8) a block with entries
+    # around 3e-7 is far above atol, so the all-zero shortcut must not fire (seeded defect C01/6: atol replaced by rtol there)
+    gs = torch.Generator().manual_seed(ctx.seed + 23)
+    As = torch.randn(5, 5, dtype=torch.float64, generator=gs)
+    As = As @ As.T / 5 + 2.0 * torch.eye(5, dtype=torch.float64)
+    for scale in (3e-7, 2e-5):
+        Bs = scale * torch.randn(5, 2, dtype=torch.float64, generator=gs)
+        refs = torch.linalg.solve(As, Bs)
+        for meth in ("cg", "bicgstab", "gmres"):
+            X, warned = run(lambda: solve(xt.LinearOperator.m(As, is_hermitian=True), Bs, method=meth))
+            ctx.count(("small-rhs", meth, scale))
+            # silence means: every column's residual is within the stopping tolerance max(rtol |b_j|, atol) of the defaults
+            resid = (As @ X - Bs).norm(dim=-2)
+            stop = torch.clamp(1e-6 * Bs.norm(dim=-2), min=1e-8)
+            if not warned and bool((resid > 10 * stop).any()):
+                ctx.fail("oracle", "solve:%s:small-rhs:silent-but-not-converged" % meth, {"method": meth, "rhs_scale": scale, "options": "defaults"},
+                         {"residual_norms": resid.tolist(), "stopping_tolerance": stop.tolist(), "max_abs_X": float(X.abs().max())},
+                         "residual within the stopping tolerance, or a ConvergenceWarning")
     # normal-equation fallback with a complex shift (the adjoint needs conj(E))
     g = torch.Generator().manual_seed(11)
     Ac = 0.3 * torch.randn(4, 4, dtype=torch.complex128, generator=g) + 2.0 * torch.eye(4, dtype=torch.complex128)
